@@ -353,6 +353,10 @@ func c08Model(c c08Case) c08Expect {
 		} else if q := ratTrunc(new(big.Rat).Quo(a, b)); !fitsInt32(q) {
 			e.empty, e.cond = true, "overflow"
 			out = e
+		} else if bInt && !fitsInt32(new(big.Rat).Mul(q, b)) {
+			// (a div b) is an Integer; multiplied by an Integer b it overflows to empty
+			e.empty, e.cond = true, "overflow"
+			out = e
 		} else {
 			out = e // expects Boolean true; handled by the caller
 		}
@@ -409,9 +413,14 @@ func c08Run(ctx *Ctx, c c08Case) {
 	}
 	nontrivial := boundary || exp.cond != "in-range"
 	opClass := c.Op
-	kinds := c.A.K
+	// operand class for signatures: System values vs FHIR elements (the kinds are in the detail)
+	kinds := "sys"
+	if !c.A.isSystem() || (c.B.K != "" && !c.B.isSystem()) {
+		kinds = "elem"
+	}
+	kindsDetail := c.A.K
 	if c.B.K != "" {
-		kinds += "×" + c.B.K
+		kindsDetail += "×" + c.B.K
 	}
 	ctx.Eval(src+"|"+c.A.String()+"|"+c.B.String(), nontrivial, "op:"+opClass, "cond:"+exp.cond)
 	delivery := "var"
@@ -424,7 +433,7 @@ func c08Run(ctx *Ctx, c c08Case) {
 			want = "empty"
 		}
 		ctx.Fail(fmt.Sprintf("arith %s %s [%s] want %s got %s", c.Op, kinds, exp.cond, want, got),
-			fmt.Sprintf("%s (%s) with a=%v b=%v: expected %s, got %s", src, delivery, c.A, c.B, c08ExpStr(exp), out))
+			fmt.Sprintf("%s (%s) with a=%v b=%v [%s]: expected %s, got %s", src, delivery, c.A, c.B, kindsDetail, c08ExpStr(exp), out))
 	}
 	switch out.kind() {
 	case "panic":
